@@ -122,7 +122,7 @@ def eval_cases(tag, preamble, case_type, cases, judge, per_file=300):
     """Evaluate `judge : case_type -> nat` (a bit mask of failed clauses, 0 = fine) on every case inside Coq
     (vm_compute), sharded over files/cores.  `cases` are Coq terms (strings).  Returns list of ints (masks),
     or raises RuntimeError with the log if a shard does not compile."""
-    d = os.path.join(WORK, tag)
+    d = os.path.join(WORK, '%s.%d' % (tag, os.getpid()))   # per process: concurrent runs of one property do not clash
     shutil.rmtree(d, ignore_errors=True)
     os.makedirs(d)
     shards = [cases[i:i + per_file] for i in range(0, len(cases), per_file)]
